@@ -4,12 +4,12 @@ from props import *
 
 MANIFEST = dict(
     text="Lean: the counting/timing operators of ee/plugins/prometheus are machines in chains with one subscriber gate per stage; "
-         "`transparent`: for every chain of operators that cannot read the plugin's unexported context key and never emit a nil context, every source mode, "
+         "`transparent`: for every chain of operators that cannot read the plugin's unexported context key and never emit a nil context (`Pair`, proved for every machine of the driver's table except maxM: `stageTable_ok`; `driver_results_transparent` on the driver's own functions), every source mode, "
          "raw script (legal or not) and cut, the instrumented composition (licence on) delivers what the plain one (licence off) delivers, with equal source "
          "subscriptions and releases (simulation: sink / one-to-one forwarder / indistinguishable pair); `counters_pinned`: for every chain whatsoever the "
          "counters are functions of the trace (subscriptions = 1 per Subscribe, in = values the source emitted while subscribed, out = values delivered, "
          "lag = source values with a non-nil context, processing observations of operator i = values leaving it with the checkpoint in their context); "
-         "`counters_exact_partial` = the property as stated on the sub-domain excluding the two listed deviations; stand-alone counters = number of "
+         "`counters_exact_partial` = the property as stated on the sub-domain excluding the two listed deviations, `counters_exact_static` = the same for every chain of checkpoint-keeping operators (`Keeps`, 23 catalogue machines); stand-alone counters = number of "
          "Next/Error/Complete/subscription events of their stage; totals over several subscriptions are sums. "
          "Partial: two deviations of the pinned tree are witness theorems and known findings (nil context after Max(empty) becomes an Error; no "
          "processing-time observation for values emitted without a checkpoint, e.g. EndWith). "
